@@ -379,7 +379,13 @@ def _check_order(st, pcols, prows, cols, rows, backend, tag, upto, stats):
     pi = [pcols.index(c) for c in order]
     if any(r[j] is None for r in prows for j in pi):
         return
-    bad = _sort_key_ok(rows, cols, order, rev)
+    try:
+        bad = _sort_key_ok(rows, cols, order, rev)
+        ref_all = _ref_sort([[r[pcols.index(c)] for c in cols] for r in prows], cols, order, rev)
+    except TypeError:
+        # an order column holding values of several types (numbers and strings) has no defined order: not judged
+        stats.probe("order-column-of-mixed-types-not-judged")
+        return
     if bad is not None:
         raise Violation((PROP, backend, "order_rows" + (":limit" if limit is not None else ""), "not-sorted"),
                         f"prefix {upto} under {tag}: {bad}", upto - 1)
@@ -397,7 +403,7 @@ def _check_order(st, pcols, prows, cols, rows, backend, tag, upto, stats):
         if len(rows) != exp_n:
             raise Violation((PROP, backend, "order_rows:limit", "wrong-row-count"),
                             f"prefix {upto} under {tag}: {len(rows)} rows, expected {exp_n}", upto - 1)
-        ref = _ref_sort(prows_c, cols, order, rev)[:exp_n]
+        ref = ref_all[:exp_n]
         for a, b in zip(rows, ref):
             if any(not cells_equal(x, y) for x, y in zip(a, b)):
                 raise Violation((PROP, backend, "order_rows:limit", "not-the-first-rows"),
